@@ -214,7 +214,15 @@ class FockBackend(BaseFock):
             red_state = s
             num_modes = len(s.shape) if pure else len(s.shape) // 2
             modes = [m for m in range(num_modes)]
+            labels = self.get_modes()
         else:
+            # the requested modes are external indices: translate them to the positions the
+            # simulator keeps them at (deleted and unknown modes are refused)
+            if isinstance(modes, int):
+                modes = [modes]
+            labels = list(modes)
+            modes = list(self._remap_modes(labels))
+
             # convert to mixed state representation
             if pure:
                 num_modes = len(s.shape)
@@ -261,7 +269,7 @@ class FockBackend(BaseFock):
             red_state = np.transpose(red_state, np.argsort(index_permutation))
 
         cutoff = self.circuit._trunc
-        mode_names = ["q[{}]".format(i) for i in np.array(self.get_modes())[modes]]
+        mode_names = ["q[{}]".format(i) for i in labels]
         state = BaseFockState(red_state, len(modes), pure, cutoff, mode_names)
         return state
 
